@@ -364,6 +364,28 @@ pub struct Interpreter {
     pub(crate) pending_module_sources: FxHashMap<crate::ModulePath, crate::ast::Program>,
 }
 
+/// Verification hook (only with `--cfg tsrun_verif`): see [`Interpreter::verif_state`].
+#[cfg(tsrun_verif)]
+#[derive(Debug, Clone, PartialEq, Eq)]
+pub struct VerifState {
+    pub env_is_global: bool,
+    pub env_guards: usize,
+    pub call_stack: usize,
+    pub has_active_vm: bool,
+    pub has_active_saved_env: bool,
+    pub has_active_module_env: bool,
+    pub exports_scratch: usize,
+    pub pending_orders: usize,
+    pub cancelled_orders: usize,
+    pub order_responses: usize,
+    pub suspended_for_order: bool,
+    pub waiting_contexts: bool,
+    pub has_pending_program: bool,
+    pub pending_module_sources: usize,
+    pub loaded_modules: usize,
+    pub root_guard_len: usize,
+}
+
 impl Interpreter {
     /// Create a new interpreter instance
     pub fn new() -> Self {
@@ -727,6 +749,30 @@ impl Interpreter {
     // ═══════════════════════════════════════════════════════════════════════════
     // Call Stack Depth
     // ═══════════════════════════════════════════════════════════════════════════
+
+    /// Verification hook (only with `--cfg tsrun_verif`): a read-only view of the
+    /// run bookkeeping that must be quiescent between runs.
+    #[cfg(tsrun_verif)]
+    pub fn verif_state(&self) -> VerifState {
+        VerifState {
+            env_is_global: Gc::ptr_eq(&self.env, &self.global_env),
+            env_guards: self.env_guards.len(),
+            call_stack: self.call_stack.len(),
+            has_active_vm: self.active_vm.is_some(),
+            has_active_saved_env: self.active_saved_env.is_some(),
+            has_active_module_env: self.active_module_env.is_some(),
+            exports_scratch: self.exports.len(),
+            pending_orders: self.pending_orders.len(),
+            cancelled_orders: self.cancelled_orders.len(),
+            order_responses: self.order_responses.len(),
+            suspended_for_order: self.suspended_for_order.is_some(),
+            waiting_contexts: self.wait_graph.has_waiting_contexts(),
+            has_pending_program: self.pending_program.is_some(),
+            pending_module_sources: self.pending_module_sources.len(),
+            loaded_modules: self.loaded_modules.len(),
+            root_guard_len: self.root_guard.len(),
+        }
+    }
 
     /// Get the current call stack depth.
     ///
